@@ -25,3 +25,13 @@ package eheap
 //@   modifies gmap("items", eh)[]
 //@   ensures forall q string :: has(gmap("items", eh), q) ==> old(has(gmap("items", eh), q))
 //@   ensures forall j int :: 0 <= j && j < len(result) ==> old(has(gmap("items", eh), str(Item.GetID(result[j])))) && !has(gmap("items", eh), str(Item.GetID(result[j])))
+//@ func (*ExpiryHeap).Remove
+//@   trusted
+//@   noframe
+//@   modifies gmap("items", eh)[]
+//@   ensures result1 == old(has(gmap("items", eh), str(id)))
+//@   ensures !has(gmap("items", eh), str(id))
+//@   ensures forall q string :: q != str(id) ==> has(gmap("items", eh), q) == old(has(gmap("items", eh), q))
+//@ func (*ExpiryHeap).Len
+//@   trusted
+//@   noframe
